@@ -88,6 +88,48 @@ done:
   ret void
 }
 
+define i32 @named_invoke(i32 %a, i32, i32 %c) personality i32 (...)* @__personality {
+entry:
+  %sum = add i32 %a, %0
+  %res = invoke i32 @dispatch(i32 %sum, i8* null) to label %ok unwind label %bad
+
+ok:
+  %twice = add i32 %res, %c
+  ret i32 %twice
+
+bad:
+  %lp2 = landingpad { i8*, i32 } cleanup
+  resume { i8*, i32 } %lp2
+}
+
+define void @unused_invoke_result(i32 %a) personality i32 (...)* @__personality {
+entry:
+  %first = add i32 %a, 1
+  %second = invoke i32 @dispatch(i32 %first, i8* null) to label %fine unwind label %broken
+
+fine:
+  ret void
+
+broken:
+  %lp3 = landingpad { i8*, i32 } cleanup
+  resume { i8*, i32 } %lp3
+}
+
+define i32 @numbered(i32, i32) {
+  %3 = add i32 %0, %1
+  %4 = mul i32 %3, %3
+  %5 = sub i32 %4, %0
+  %6 = xor i32 %5, %1
+  %7 = and i32 %6, %3
+  %8 = or i32 %7, %4
+  ret i32 %8
+}
+
+define i32 @small_numbered(i32) {
+  %2 = add i32 %0, 1
+  ret i32 %2
+}
+
 uselistorder_bb @dispatch, %case_c, { 2, 0, 1 }
 
 !llvm.dbg.cu = !{!4}
